@@ -318,11 +318,11 @@ Qed.
 Lemma dec_desc_soft0 F bs : dec_desc (S F) 0 bs = DSoft.
 Proof. reflexivity. Qed.
 
-Lemma esds_core h r l rsv r' : bytes_ok r = true -> dec_esds h r = Ok ((l, rsv), r') ->
+Lemma esds_core_in h r l rsv r' : bytes_ok r = true -> dec_esds_in h r = Ok ((l, rsv), r') ->
   bytes_ok r' = true /\ leaf_name l = n_esds /\ exists b, body_leaf l rsv = Ok b /\ r = b ++ r' /\
-    (leaf_guard l = true -> rsv = dflt_rsv l /\ forall r2, dec_esds h (b ++ r2) = Ok ((l, rsv), r2)).
+    (leaf_guard l = true -> rsv = dflt_rsv l /\ forall r2, dec_esds_in h (b ++ r2) = Ok ((l, rsv), r2)).
 Proof.
-  intros Hok H. unfold dec_esds in H. apply pbind_ok in H. destruct H as (vf & r0 & Evf & H).
+  intros Hok H. unfold dec_esds_in in H. apply pbind_ok in H. destruct H as (vf & r0 & Evf & H).
   destruct (rd_spec _ _ _ _ Hok Evf) as (-> & Hvf & Hok0). cbv beta zeta in H.
   set (F := S (N.to_nat (h_size h + 65536))) in *.
   destruct r0 as [|tag t]; [discriminate|].
@@ -357,7 +357,7 @@ Proof.
       apply andb_true_iff in G. destruct G as [G Gu]. apply andb_true_iff in G. destruct G as [G Gcs].
       apply andb_true_iff in G. destruct G as [Geq Gd]. apply rsv_eqb0_eq in Geq.
       split; [exact Geq|]. cbn [forallb] in Gcs. apply andb_true_iff in Gcs. destruct Gcs as [Gd2 Gds].
-      intros rr. unfold dec_esds, pbind. repeat rewrite <- app_assoc. rewrite rd_enc by assumption. cbv beta zeta. fold F.
+      intros rr. unfold dec_esds_in, pbind. repeat rewrite <- app_assoc. rewrite rd_enc by assumption. cbv beta zeta. fold F.
       cbn [app N.eqb Pos.eqb negb]. rewrite Hreps, Hlocf. fold W. rewrite HW.
       replace (W ++ x1 ++ x2 ++ x3 ++ rr) with (W ++ x1 ++ (x2 ++ x3 ++ rr)) by reflexivity.
       rewrite (Hloc1 Gd). rewrite HW1, (Hloc2 Gd2), HW2, (Hloc3 Gds), Esz. reflexivity.
@@ -385,21 +385,15 @@ Proof.
     assert (Hu0 : u = []) by (destruct u; [reflexivity|rewrite lenN_cons in Gu; lia]). subst u.
     change (lenN (@nil N)) with 0 in Hlu. apply Z.ltb_ge in Eneg.
     assert (Hz : (int64 size - Z.of_N (lenN W + lenN x1))%Z = 0%Z) by lia.
-    intros rr. unfold dec_esds, pbind. repeat rewrite <- app_assoc. rewrite rd_enc by assumption. cbv beta zeta. fold F.
+    intros rr. unfold dec_esds_in, pbind. repeat rewrite <- app_assoc. rewrite rd_enc by assumption. cbv beta zeta. fold F.
     cbn [app N.eqb Pos.eqb negb]. rewrite Hreps, Hlocf. fold W. rewrite HW.
     rewrite (Hloc1 Gd). rewrite HW1. rewrite Hz. change (dec_desc F 0 rr) with DSoft. cbv beta iota. change ((0 <? 0)%Z) with false. cbv iota.
     change (Z.to_N 0) with 0. rewrite (rdB_app [] rr : rdB 0 rr = Ok ([], rr)). reflexivity.
 Qed.
 
-Lemma lossless_esds : leaf_lossless dec_esds.
+Lemma esds_name_in h r l rsv r' : dec_esds_in h r = Ok ((l, rsv), r') -> leaf_name l = n_esds.
 Proof.
-  intros h r l rsv r' Hok H G. destruct (esds_core _ _ _ _ _ Hok H) as (Hok' & _ & b & Hb & Hr & _).
-  exists b. now repeat split.
-Qed.
-
-Lemma esds_name h r l rsv r' : dec_esds h r = Ok ((l, rsv), r') -> leaf_name l = n_esds.
-Proof.
-  intros H. unfold dec_esds in H. apply pbind_ok in H. destruct H as (vf & r0 & _ & H). cbv beta zeta in H.
+  intros H. unfold dec_esds_in in H. apply pbind_ok in H. destruct H as (vf & r0 & _ & H). cbv beta zeta in H.
   destruct r0 as [|tag t]; [discriminate|]. destruct (negb (tag =? 3)); [discriminate|].
   destruct (sz_loop t 0) as [[[[nb size] raw] rA]| | |]; try discriminate.
   destruct (rd_es_fields rA) as [[[[[[esid fl] dep] url] ocr] r1]| | |]; try discriminate.
@@ -412,10 +406,10 @@ Proof.
     injection H as <- _ _. reflexivity.
 Qed.
 
-Lemma esds_is h r l rsv r' : dec_esds h r = Ok ((l, rsv), r') ->
+Lemma esds_is_in h r l rsv r' : dec_esds_in h r = Ok ((l, rsv), r') ->
   match l with LEsds _ _ _ _ _ _ _ _ _ _ _ _ => True | _ => False end.
 Proof.
-  intros H. unfold dec_esds in H. apply pbind_ok in H. destruct H as (vf & r0 & _ & H). cbv beta zeta in H.
+  intros H. unfold dec_esds_in in H. apply pbind_ok in H. destruct H as (vf & r0 & _ & H). cbv beta zeta in H.
   destruct r0 as [|tag t]; [discriminate|]. destruct (negb (tag =? 3)); [discriminate|].
   destruct (sz_loop t 0) as [[[[nb size] raw] rA]| | |]; try discriminate.
   destruct (rd_es_fields rA) as [[[[[[esid fl] dep] url] ocr] r1]| | |]; try discriminate.
@@ -428,6 +422,50 @@ Proof.
     injection H as <- _ _. exact I.
 Qed.
 
+
+(* DecodeEsdsSR (since repo commit 27ea537): the run above on a reader over the payload of the box *)
+Lemma esds_unwrap h r x r' : bytes_ok r = true -> dec_esds h r = Ok (x, r') ->
+  exists data rest extra, r = data ++ rest /\ lenN data = payload_len h /\ bytes_ok data = true /\ bytes_ok rest = true /\
+    dec_esds_in h data = Ok (x, extra) /\ r' = extra ++ rest.
+Proof.
+  intros Hok H. unfold dec_esds in H.
+  destruct (rdB (payload_len h) r) as [[data rest]| | |] eqn:Ed; try discriminate.
+  destruct (rdB_spec _ _ _ _ Hok Ed) as (-> & Hl & Hokd & Hokr).
+  destruct (dec_esds_in h data) as [[x0 extra]| | |] eqn:Ei; try discriminate.
+  injection H as <- <-. exists data, rest, extra. repeat split; assumption.
+Qed.
+
+Lemma esds_core h r l rsv r' : bytes_ok r = true -> dec_esds h r = Ok ((l, rsv), r') ->
+  bytes_ok r' = true /\ leaf_name l = n_esds /\ exists b, body_leaf l rsv = Ok b /\ r = b ++ r' /\
+    (leaf_guard l = true -> rsv = dflt_rsv l /\
+       forall r2, payload_len h = lenN b -> dec_esds h (b ++ r2) = Ok ((l, rsv), r2)).
+Proof.
+  intros Hok H. destruct (esds_unwrap _ _ _ _ Hok H) as (data & rest & extra & -> & Hl & Hokd & Hokr & Ei & ->).
+  destruct (esds_core_in _ _ _ _ _ Hokd Ei) as (Hoke & Hn & b & Hb & -> & Hg).
+  split. { rewrite bytes_ok_app, Hoke, Hokr. reflexivity. }
+  split; [exact Hn|]. exists b. split; [exact Hb|]. split; [now rewrite <- app_assoc|].
+  intros G. destruct (Hg G) as [Hd Hrep]. split; [exact Hd|].
+  intros r2 Hp. unfold dec_esds. rewrite Hp, rdB_app.
+  specialize (Hrep []). rewrite app_nil_r in Hrep. rewrite Hrep. reflexivity.
+Qed.
+
+Lemma lossless_esds : leaf_lossless dec_esds.
+Proof.
+  intros h r l rsv r' Hok H G. destruct (esds_core _ _ _ _ _ Hok H) as (Hok' & _ & b & Hb & Hr & _).
+  exists b. now repeat split.
+Qed.
+
+Lemma esds_in_of h r x r' : dec_esds h r = Ok (x, r') -> exists data extra, dec_esds_in h data = Ok (x, extra).
+Proof.
+  intros H. unfold dec_esds in H. destruct (rdB (payload_len h) r) as [[data rest]| | |]; try discriminate.
+  destruct (dec_esds_in h data) as [[x0 extra]| | |] eqn:Ei; try discriminate.
+  injection H as <- _. now exists data, extra.
+Qed.
+Lemma esds_name h r l rsv r' : dec_esds h r = Ok ((l, rsv), r') -> leaf_name l = n_esds.
+Proof. intros H. destruct (esds_in_of _ _ _ _ H) as (d & e & Hi). exact (esds_name_in _ _ _ _ _ Hi). Qed.
+Lemma esds_is h r l rsv r' : dec_esds h r = Ok ((l, rsv), r') ->
+  match l with LEsds _ _ _ _ _ _ _ _ _ _ _ _ => True | _ => False end.
+Proof. intros H. destruct (esds_in_of _ _ _ _ H) as (d & e & Hi). exact (esds_is_in _ _ _ _ _ Hi). Qed.
 
 (* ---------------------------------------------------------------- Size() of the descriptors = bytes written *)
 Lemma enc_desc_len : forall d tl, exists x, enc_desc d (dflt_desc d ++ tl) = (x, tl) /\ lenN x = desc_sizesize d.
